@@ -24,6 +24,11 @@ def theorems():
     return re.findall(r'^Theorem (\w+)', open(p).read(), re.M) if os.path.exists(p) else []
 
 
+def unsplice(b):
+    """the literal body as the scanner sees it: line splices are removed before extraction"""
+    return b.replace('\\\n', '')
+
+
 def rand_body(rng, maxlen=8, tricky=True):
     """-> (source body text, decoded bytes)"""
     parts = []
@@ -42,6 +47,10 @@ def rand_body(rng, maxlen=8, tricky=True):
             t, b = rng.choice(atoms)
             parts.append(t)
             out.extend(b)
+        if tricky and rng.random() < 0.12:
+            # a line splice inside the literal (after any character, including an escaped backslash):
+            # translation phase 2 removes backslash-newline, the bytes do not change
+            parts.append('\\\n')
     return ''.join(parts), out
 
 
@@ -109,12 +118,12 @@ def run(ctx):
             else:
                 lines.append(decl)
             exp[name] = sum((o for _, o in bodies), []) + [0]
-            pieces[name] = [b for b, _ in bodies]
+            pieces[name] = [unsplice(b) for b, _ in bodies]
         # pointer table
         tb = [rand_body(rng) for _ in range(rng.randrange(1, 4))]
         lines.append('const char *tab[%d] = {%s};' % (len(tb), ', '.join('"%s"' % b for b, _ in tb)))
         exp['@table'] = [o + [0] for _, o in tb]
-        pieces['@table'] = [[b] for b, _ in tb]
+        pieces['@table'] = [[unsplice(b)] for b, _ in tb]
         # call arguments and character constants
         ab = [rand_body(rng) for _ in range(rng.randrange(1, 3))]
         lines.append('char cc; void f(char *p%s) { cc = p[Y]; }' % (', char *q' if len(ab) == 2 else ''))
@@ -131,7 +140,7 @@ def run(ctx):
         asm_body = rand_body(rng, 5, tricky=False)
         lines.append('void main() { f(%s); %s asm("%s"); }' % (', '.join('"%s"' % b for b, _ in ab), ' '.join(stm), asm_body[0]))
         exp['@args'] = [o + [0] for _, o in ab]
-        pieces['@args'] = [[b] for b, _ in ab]
+        pieces['@args'] = [[unsplice(b)] for b, _ in ab]
         exp['@chars'] = [v for _, v in chars]
         exp['@asm'] = asm_body[1]
         pieces['@asm'] = [asm_body[0]]
